@@ -7,7 +7,9 @@ correspondence : the real LearnerND (2-D / 3-D, rectangular and ConvexHull domai
                  of the sub-triangulations, inside_bounds, chosen points, triangulation attempts) is
                  recorded by wrapping methods from this process; the Coq model replays the history in
                  binary64 and compares data, pending points, tri, _losses, _subtriangulations, the
-                 whole _simplex_queue and loss() after every operation (vm_compute inside Coq)
+                 whole _simplex_queue and loss() after every operation (vm_compute inside Coq); loss() is the FIRST
+                 thing read from the learner after an operation (LearnerND.tri is built lazily, and tell reads it before
+                 it stores the point: the model's Touch step is that first loss() call), the compared value is that one
 search/oracle  : from-scratch oracle of the property text on the real object (impl_lnd.Oracle)
 """
 from __future__ import annotations
